@@ -292,15 +292,27 @@ func (r *runner) noteFault(p *int) { *p++ }
 //go:norace
 func (r *runner) noteStuck() { r.res.StuckHeld++ }
 
+// errCause is the cause a CtxKind 2 context is cancelled with; nothing the
+// scheduler reports may be it.
+var errCause = errors.New("cancellation cause (not the context's error)")
+
 func (r *runner) caller(si int) {
 	sim := r.sim
 	sr := r.res.SR[si]
 	sd := sr.d
 	base := context.WithValue(context.Background(), ctxKey{}, sr.token)
 	ctx, cancel := context.WithCancel(base)
+	if sd.CtxKind == 2 && sd.CancelMode != CancelDeadline {
+		cctx, ccancel := context.WithCancelCause(base)
+		ctx, cancel = cctx, func() { ccancel(errCause) }
+	}
 	if sd.CancelMode == CancelDeadline {
 		d := time.Duration(sd.DelaySteps)*engine.Q + time.Duration(2*(sd.DelaySteps%1000)+1)
-		ctx, cancel = context.WithTimeout(base, d)
+		if sd.CtxKind == 2 {
+			ctx, cancel = context.WithTimeoutCause(base, d, errCause)
+		} else {
+			ctx, cancel = context.WithTimeout(base, d)
+		}
 		sim.SetTimerUntil(time.Now().UnixNano() + int64(d))
 		sim.AddIdleMax(sd.DelaySteps + 4)
 		context.AfterFunc(ctx, func() { r.log(EvCancel, si, -1) })
@@ -359,7 +371,12 @@ func (r *runner) caller(si int) {
 			jctx := ctx
 			if jd.Ctx != CtxShared {
 				var jcancel context.CancelFunc
-				jctx, jcancel = context.WithCancel(base)
+				if sd.CtxKind == 2 {
+					cctx, ccancel := context.WithCancelCause(base)
+					jctx, jcancel = cctx, func() { ccancel(errCause) }
+				} else {
+					jctx, jcancel = context.WithCancel(base)
+				}
 				sr.setJobCtx(j, jctx.Done(), jcancel)
 				jpub.Add(1) // read-modify-write: a plain store by a second enqueuer would cut the release sequence of the first
 				if jd.Ctx == CtxOwnDead {
@@ -412,7 +429,12 @@ func (r *runner) caller(si int) {
 	wctx := ctx
 	if sd.WaitCtx != 0 {
 		var wcancel context.CancelFunc
-		wctx, wcancel = context.WithCancel(base)
+		if sd.CtxKind == 2 {
+			cctx, ccancel := context.WithCancelCause(base)
+			wctx, wcancel = cctx, func() { ccancel(errCause) }
+		} else {
+			wctx, wcancel = context.WithCancel(base)
+		}
 		defer wcancel()
 		sr.setWaitCancel(wcancel)
 		sr.ctxPub.Store(true)
